@@ -3,6 +3,7 @@ import Rcgen.Theorems.C02
 import Rcgen.Spec.X509
 import Rcgen.Proofs.Canon
 import Rcgen.Proofs.Alphabets
+import Rcgen.Proofs.Utf8
 /-
   C04 — everything emitted as DER is canonical DER.
   The TLV layer (definite minimal lengths, low tag numbers, no trailing bytes) is the generic
@@ -193,16 +194,17 @@ abbrev paramsCanon := Proofs.Canon.paramsCanon
 
 /-- the alphabet hypothesis of the theorems below is what the string-type constructors
     establish (C13): a value any of them accepts lies in the X.680 alphabet of the tag it is
-    written under.  (For `Utf8String` the hypothesis is the invariant of Rust's `String`,
-    well-formed UTF-8, which is not modelled.) -/
+    written under; and the UTF-8 bytes of any text (Rust's `String`) are well-formed UTF-8 —
+    no overlong form, no surrogate, nothing above U+10FFFF (`Proofs.Utf8`). -/
 theorem constructed_values_in_alphabet :
     (∀ s b, printableCtor s = some b → Proofs.Canon.valueCanon (.printable b) = true) ∧
     (∀ s b, ia5Ctor s = some b → Proofs.Canon.valueCanon (.ia5 b) = true) ∧
     (∀ s b, teletexCtor s = some b → Proofs.Canon.valueCanon (.teletex b) = true) ∧
     (∀ b b', bmpFromUtf16be b = some b' → Proofs.Canon.valueCanon (.bmp b') = true) ∧
-    (∀ b b', universalFromUtf32be b = some b' → Proofs.Canon.valueCanon (.universal b') = true) :=
+    (∀ b b', universalFromUtf32be b = some b' → Proofs.Canon.valueCanon (.universal b') = true) ∧
+    (∀ s : List Char, Proofs.Canon.valueCanon (.utf8 (utf8 s)) = true) :=
   ⟨Proofs.Alphabets.printable_canon, Proofs.Alphabets.ia5_canon, Proofs.Alphabets.teletex_canon,
-   Proofs.Alphabets.bmp_canon, Proofs.Alphabets.universal_canon⟩
+   Proofs.Alphabets.bmp_canon, Proofs.Alphabets.universal_canon, Proofs.Utf8.utf8Valid_utf8⟩
 
 /-- **every certificate is canonical DER, outermost element to the inside of every extension
     value**: for every parameter set with which generation succeeds, every key, issuer, hash
